@@ -58,7 +58,10 @@ func lookupNode[T any](urlTree *URLTree[T], url string) lookupNodeResult[T] {
 	var wildcardParams map[string]string
 	urlPath := ""
 	for _, urlPart := range splitURL {
-		if currentNode.WildcardChild != nil {
+		// A wildcard written as a path segment stands for path segments only: it is
+		// no fallback while host labels are still consumed (a.com/* vs a.com.evil.net)
+		if currentNode.WildcardChild != nil &&
+			currentNode.WildcardChild.IsPartOfHost == urlPart.IsPartOfHost {
 			foundWildcardNode = currentNode.WildcardChild
 			wildcardURLPath = wildcardPath(urlPath, foundWildcardNode)
 			wildcardParams = maps.Clone(params)
